@@ -266,6 +266,11 @@ pub fn gen(seed: u64, idx: u64, tier: Tier) -> Case {
         // the caller does not retry a failed set_len and carries on with the handle
         c.params.insert("set_len_carry_on".into(), 1);
     }
+    if idx % 4 == 3 {
+        // the caller GIVES UP on a create that failed (no retry, never touches that path or
+        // anything below it again) and carries on with its other objects
+        c.params.insert("give_up_creates".into(), 1);
+    }
     c
 }
 
@@ -292,6 +297,7 @@ struct RunOut {
     /// underlying flush() calls among them
     spans: Vec<(u64, u64, u64)>,
     carried_on: u64,
+    gave_up: u64,
 }
 
 fn is_write_class(name: &str) -> bool {
@@ -312,7 +318,7 @@ fn execute(case: &Case, plan: &[Fault], heal_after_first_failure: bool, wb_end: 
     let mut drop_fault = false;
     let retry_set_len = case.param("retry_set_len", 1) == 1;
     let set_len_carry_on = case.param("set_len_carry_on", 0) == 1;
-    let mut out = RunOut { n_events: 0, violation: None, fired: Default::default(), verified_after_fault: 0, inconclusive: 0, trace: 0, retry_span: None, spans: vec![(0, 0, 0); case.ops.len()], carried_on: 0 };
+    let mut out = RunOut { n_events: 0, violation: None, fired: Default::default(), verified_after_fault: 0, inconclusive: 0, trace: 0, retry_span: None, spans: vec![(0, 0, 0); case.ops.len()], carried_on: 0, gave_up: 0 };
     crate::driver::set_clock(crate::ops::T { secs: 1_600_000_000, nanos: 0 });
     let fin = |out: &mut RunOut, disk: &SimDisk| {
         let d = disk.0.borrow();
@@ -359,6 +365,8 @@ fn execute(case: &Case, plan: &[Fault], heal_after_first_failure: bool, wb_end: 
     let mut reopened_at_fault_count: u64 = u64::MAX;
     // paths whose content is uncertain because a structural / whole-stream call failed
     let mut tainted: BTreeSet<String> = BTreeSet::new();
+    let give_up_creates = case.param("give_up_creates", 0) == 1;
+    let mut given_up: Vec<String> = vec![];
     'ops: for (i, op) in case.ops.iter().enumerate() {
         // a second handle on a stream that already has one is outside the statement
         // (minimisation can produce such scripts): skip the op
@@ -382,6 +390,15 @@ fn execute(case: &Case, plan: &[Fault], heal_after_first_failure: bool, wb_end: 
         if let Some(p) = target {
             if tainted.iter().any(|t| t.eq_ignore_ascii_case(p)) {
                 continue;
+            }
+        }
+        if !given_up.is_empty() {
+            let j = op.to_json();
+            if let Some(p) = j.get("path").and_then(|v| v.as_str()) {
+                let pl = p.to_ascii_lowercase();
+                if given_up.iter().any(|g| pl == *g || pl.starts_with(&format!("{}/", g))) {
+                    continue;
+                }
             }
         }
         // never two handles on one stream (no property covers that)
@@ -792,6 +809,23 @@ fn execute(case: &Case, plan: &[Fault], heal_after_first_failure: bool, wb_end: 
                 }
                 _ => {}
             }
+            if is_err && give_up_creates && tries == 1 && !fired.is_empty() {
+                let p = match op {
+                    Op::CreateStorage(p) | Op::CreateStream(p) => Some(p),
+                    Op::HCreate { path, .. } | Op::HCreateNew { path, .. } => Some(path),
+                    _ => None,
+                };
+                if let Some(p) = p {
+                    // not retried, not touched again: the failed create may have left anything
+                    // in its own slot, but the FILE stays usable - what other handles flush
+                    // afterwards is owed as always, and the bytes still have to open
+                    tainted.remove(p);
+                    known.remove(p);
+                    given_up.push(p.to_ascii_lowercase());
+                    out.gave_up += 1;
+                    break;
+                }
+            }
             if is_err && tries < 4 && !fired.is_empty() {
                 continue; // retry the failed call
             }
@@ -953,11 +987,13 @@ pub fn run(case: &Case, _known: &BTreeSet<String>) -> Outcome {
     let mut traces: BTreeSet<u64> = BTreeSet::new();
     let mut verified = 0u64;
     let mut carried_on = 0u64;
+    let mut gave_up = 0u64;
     let last_span: std::cell::Cell<Option<(u64, u64)>> = std::cell::Cell::new(None);
     let mut pair_runs = 0u64;
     let mut run_plan = |o: &mut Outcome, plan: Vec<Fault>, heal: bool| -> bool {
         let r = execute(case, &plan, heal, &wb_end);
         carried_on += r.carried_on;
+        gave_up += r.gave_up;
         last_span.set(r.retry_span);
         o.stats.sub_runs += 1;
         o.stats.seam_events += r.n_events;
@@ -1041,6 +1077,9 @@ pub fn run(case: &Case, _known: &BTreeSet<String>) -> Outcome {
     o.stats.probe_n("second_fault_inside_retry_runs", pair_runs);
     if case.param("set_len_carry_on", 0) == 1 {
         o.stats.probe_n("carried_on_after_failed_set_len", carried_on);
+    }
+    if case.param("give_up_creates", 0) == 1 {
+        o.stats.probe_n("gave_up_on_a_failed_create", gave_up);
     }
     let _ = Whence::Start;
     o
